@@ -565,6 +565,28 @@ der_bitstring = decoder_spec('BitString', stubs={'cls': bitstring_ctor_stub})
 huge_component = z3.Function('has_component_over_4300_digits', z3.SeqSort(IntS), BoolS)
 
 
+def local_len(c, name):
+    v = c.ex.deref(c.new_state, c.localv(name))
+    return z3.IntVal(len(v.items)) if isinstance(v, VList) else z3.Length(v.z)
+
+
+def bitor_nat(c, *names):
+    """int.__or__ on natural numbers (the engine's `bitor` is otherwise uninterpreted): x | y >= x, >= y for
+    x, y >= 0 - instantiated at every `bitor` application inside the named locals (quantifier free)"""
+    out, seen, stack = [], set(), [c.local(n) for n in names if c.has_local(n) and hasattr(c.localv(n), 'z')]
+    while stack:
+        t = stack.pop()
+        if t.get_id() in seen:
+            continue
+        seen.add(t.get_id())
+        if z3.is_app(t):
+            if t.decl().name() == 'bitor' and t.num_args() == 2:
+                x, y = t.arg(0), t.arg(1)
+                out.append(z3.Implies(z3.And(x >= 0, y >= 0), z3.And(t >= x, t >= y)))
+            stack.extend(t.children())
+    return out
+
+
 def join_components_stub(cx):
     """'.'.join(str(c) for c in components): CPython >= 3.11 refuses int -> str conversion beyond 4300 digits
     (sys.int_max_str_digits) with ValueError"""
@@ -583,7 +605,14 @@ der_oid = decoder_spec(
     'ObjectIdentifier',
     stubs={'divmod': lambda cx: VTuple([cx.fresh('int', 'div'), cx.fresh('int', 'mod')]),
            "'.'.join": join_components_stub, 'cls': ret('any', 'oid')},
-    loops={1: LoopSpec(header='for b in content[1:]', invariant=lambda c: z3.BoolVal(True))},
+    # no complete sub-identifier yet => a partial one is pending (so components[0] exists after the loop, or the
+    # 'Incomplete component' check fires)
+    loops={1: LoopSpec(header='for b in content',
+                       invariant=lambda c: z3.And(
+                           c.local('component') >= 0,
+                           z3.Implies(z3.And(local_len(c, 'components') == 0, c.extra['i'] > 0),
+                                      c.local('component') > 0)),
+                       lemmas=lambda c: bitor_nat(c, 'component'))},
     local_types={'components': 'seq[int]'})
 
 
@@ -640,19 +669,19 @@ for _sp in (der_decode_partial, der_ia5, der_oid, der_bitstring):
 
 
 # ====================================================================== `while packet:` loops
-def pkf(c, name, field, new=True):
+def pkf(c, field, name='packet', new=True):
     """field of the SSHPacket bound to local/parameter `name`"""
     st = c.new_state if new else c.old_state
     return st.rec(st.env[name]).fields[field].z
 
 
 def packet_left(c, name='packet'):
-    return pkf(c, name, '_len') - pkf(c, name, '_idx')
+    return pkf(c, '_len', name) - pkf(c, '_idx', name)
 
 
 def packet_ok(c, name='packet'):
-    return z3.And(pkf(c, name, '_idx') >= 0, pkf(c, name, '_idx') <= pkf(c, name, '_len'),
-                  pkf(c, name, '_len') == z3.Length(pkf(c, name, '_packet')))
+    return z3.And(pkf(c, '_idx', name) >= 0, pkf(c, '_idx', name) <= pkf(c, '_len', name),
+                  pkf(c, '_len', name) == z3.Length(pkf(c, '_packet', name)))
 
 
 def on_packet(spec_getter):
@@ -660,6 +689,13 @@ def on_packet(spec_getter):
     st = contract_stub(spec_getter)
     st.modifies = ()        # modifies fields of the packet object, not of self
     return st
+
+
+def havocs_packet(ls, name='packet'):
+    """the reader object bound to `name` is mutated in the loop body: loop-head state = a fresh packet object
+    (needs local_types[name] = 'obj:SSHPacket'); what is kept of it must be said in the invariant"""
+    ls.havoc_locals = [name]
+    return ls
 
 
 def region_between(first_target, last_type):
@@ -691,13 +727,13 @@ finish_hostkeys_loop = Spec(
            'decode_ssh_public_key': may_raise(ret('opaque:Key', 'key'), 'KeyImportError'),
            # list.remove(x): ValueError when x is not in the list (same trusted key listed twice)
            'removed.remove': may_raise(noop(), 'ValueError')},
-    local_types={'added': KEYSEQ, 'removed': KEYSEQ, 'retained': KEYSEQ, 'revoked': KEYSEQ,
+    local_types={'packet': 'obj:SSHPacket', 'added': KEYSEQ, 'removed': KEYSEQ, 'retained': KEYSEQ, 'revoked': KEYSEQ,
                  'prove': 'seq[tuple[opaque:Key,bytes]]'},
     requires=lambda c: packet_ok(c),
-    loops={1: LoopSpec(header='packet', invariant=lambda c: packet_ok(c),
+    loops={1: havocs_packet(LoopSpec(header='packet', invariant=lambda c: packet_ok(c),
                        # (1) every iteration consumes at least the 4 length bytes of one entry, or leaves the loop
                        # by an exception: at most len/4 iterations
-                       variant=lambda c: packet_left(c))},
+                       variant=lambda c: packet_left(c)))},
     ensures=[('all-consumed', lambda c: packet_left(c) == 0)],
     # run as a task (create_task): _reap_task turns these into a connection close
     raises={'PacketDecodeError': True, 'ValueError': True})
@@ -778,6 +814,11 @@ def sk_inv(c, new=True):
     return z3.Implies(armed(g('_recv_handler')), z3.Not(c.is_none(g('_transport'))))
 
 
+# SSHSOCKSForwarder.close() itself is executed from its source (it must disarm the handler); only the base class
+# close() it delegates to is summarised
+SOCKS_CLOSE = {'self.close': ('socks', 'SSHSOCKSForwarder.close')}
+
+
 def close_stub(cx):
     """SSHForwarder.close(): closes the transport and forgets it (forward.py 179-189); raises nothing"""
     return [Out(sets={'_transport': VNone}, event=('close', ()))]
@@ -842,7 +883,7 @@ def socks_handler(name, extra_stubs=None, raises=None):
         # (1) nothing consumed (len(data) == 0 happens for peer-chosen lengths 0) => the state machine must advance
         consumed = z3.Length(c.arg('data')) + z3.If(c.old('_bytes_needed') < 0, 1, 0)
         return z3.Or(consumed >= 1, srank(c.newv('_recv_handler')) < SOCKS_RANK[name])
-    stubs = {'self.close': close_stub, 'self._connect': connect_stub, 'self._transport.write': noop('write'),
+    stubs = {'super().close': close_stub, 'self._connect': connect_stub, 'self._transport.write': noop('write'),
              'self._send_socks4_ok': noop('ok4'), 'self._send_socks5_ok': noop('ok5'),
              # ipaddress.ip_address(bytes of length 4 or 16): total on those lengths, ValueError otherwise
              'ip_address': lambda cx: [Out(ret=cx.fresh('any', 'ip'),
@@ -852,7 +893,7 @@ def socks_handler(name, extra_stubs=None, raises=None):
                                                                 z3.Length(cx.args[0].z) == 16))])]}
     stubs.update(extra_stubs or {})
     return Spec(PROP, 'socks', 'SSHSOCKSForwarder.' + name, self_class='SSHSOCKSForwarder', params={'data': 'bytes'},
-                classes=SK, stubs=stubs, requires=requires,
+                classes=SK, stubs=stubs, requires=requires, inline=dict(SOCKS_CLOSE),
                 ensures=[('armed-implies-open', sk_inv), ('progress', progress),
                          ('next-state-gets-the-length-it-expects',
                           lambda c: sk_expect(c.newv('_recv_handler'), c.new('_bytes_needed')))],
@@ -899,14 +940,21 @@ def socks_dispatch_stub(cx):
 
 socks_dispatch_stub.modifies = ('_recv_handler', '_bytes_needed', '_transport')
 
+socks_close = Spec(
+    PROP, 'socks', 'SSHSOCKSForwarder.close', self_class='SSHSOCKSForwarder', classes=SK,
+    stubs={'super().close': close_stub}, modifies=['_recv_handler', '_transport'],
+    ensures=[('disarms-the-parser', lambda c: z3.Not(armed(c.newv('_recv_handler')))),
+             ('closes-the-transport', lambda c: c.is_none(c.newv('_transport')))],
+    raises={})
+
 socks_data_received = Spec(
     PROP, 'socks', 'SSHSOCKSForwarder.data_received', self_class='SSHSOCKSForwarder',
     params={'data': 'bytes', 'datatype': 'none'}, classes=SK,
-    stubs={'self._recv_handler': socks_dispatch_stub, 'self.close': close_stub,
+    stubs={'self._recv_handler': socks_dispatch_stub, 'self.close': contract_stub(lambda: socks_close),
            'super().data_received': noop('forward'), 'self._inpbuf.find': weak_find_stub},
     requires=lambda c: z3.And(sk_inv(c, new=False), srank(c.oldv('_recv_handler')) <= 6,
                               sk_expect(c.oldv('_recv_handler'), c.old('_bytes_needed'))),
-    loops={1: LoopSpec(header='self._recv_handler',
+    loops={1: LoopSpec(header='self._recv_handler', modifies=['_recv_handler', '_transport'],
                        invariant=lambda c: z3.And(sk_inv(c), srank(c.newv('_recv_handler')) <= 6,
                                                   sk_expect(c.newv('_recv_handler'), c.new('_bytes_needed'))),
                        # (1) lexicographic (unconsumed bytes, handler rank) as one integer
@@ -957,3 +1005,273 @@ validate_sshsig = Spec(
     # known finding: ValueError for an unsupported hash name / empty namespace / X.509 certificate in the blob
     raises={})
 validate_sshsig.no_replay = True
+validate_sshsig.feasible_timeout_ms = 300
+validate_sshsig.cvc5_first = True
+
+
+# ====================================================================== connection.py: transport message handlers
+# (2) a handler raises only DisconnectError subclasses or PacketDecodeError (which _recv_packet converts);
+# (1)/(3) loops driven by a peer-chosen count run at most len(packet)/8 times although the count is any uint32.
+HCONN = dict(RCONN, _wait='opt[str]', _owner='opt[obj:Owner]', _can_recv_ext_info='bool',
+             _utf8_decode_errors='str', _server_sig_algs='any', _next_service='opt[bytes]')
+HCLASSES = dict(RCLASSES, SSHConnection=HCONN, Owner={}, **PACKET_CLASSES)
+HPARAMS = dict(_pkttype='int', _pktid='int', packet='obj:SSHPacket')
+HRAISES = {'DisconnectError': True, 'PacketDecodeError': True}
+
+
+def decode_utf8_stub(cx):
+    """_decode_utf8 = msg_bytes.decode('utf-8', self._utf8_decode_errors): UnicodeDecodeError under 'strict'"""
+    return [Out(ret=cx.fresh('str', 'decoded')), Out(exc=VExc('UnicodeDecodeError'))]
+
+
+decode_utf8_stub.modifies = ()
+
+
+def handler_spec(name, stubs=None, **kw):
+    st = dict(ROLE_STUBS, **{'self._decode_utf8': decode_utf8_stub, 'self._force_close': force_close_stub,
+                             'construct_disc_error': ret('any', 'disc_exc'),
+                             # application callback (SSHClient/SSHServer.debug_msg_received): assumed not to raise
+                             'self._owner.debug_msg_received': noop('debug_msg')})
+    st.update(stubs or {})
+    rq = kw.pop('requires', None)
+    return Spec(PROP, 'connection', 'SSHConnection.' + name, self_class='SSHConnection', params=dict(HPARAMS),
+                classes=HCLASSES, inline=dict(PACKET_INLINE), truthy=PACKET_TRUTHY, stubs=st,
+                requires=(lambda c: z3.And(packet_ok(c), rq(c))) if rq else packet_ok,
+                raises=dict(HRAISES), always=[('packet-stays-well-formed', packet_ok)], **kw)
+
+
+process_disconnect = handler_spec(
+    '_process_disconnect',
+    ensures=[('always-closes', closed), ('whole-packet-consumed', lambda c: packet_left(c) == 0)])
+process_ignore = handler_spec('_process_ignore')
+process_unimplemented = handler_spec('_process_unimplemented',
+                                     ensures=[('whole-packet-consumed', lambda c: packet_left(c) == 0)])
+process_debug = handler_spec('_process_debug', ensures=[('whole-packet-consumed', lambda c: packet_left(c) == 0)])
+
+
+def entry_pkf(c, field, name='packet'):
+    st = c.loop_entry
+    return st.rec(st.env[name]).fields[field].z
+
+
+process_ext_info = handler_spec(
+    '_process_ext_info',
+    local_types={'packet': 'obj:SSHPacket', 'extensions': 'dict[bytes,bytes]', 'name': 'bytes', 'value': 'bytes'},
+    loops={1: havocs_packet(LoopSpec(
+        header='for _ in range(num_extensions)',
+        # (3) num_extensions is ANY uint32; after i completed iterations at least 8*i bytes are gone, so the loop
+        # body runs at most len/8 times before get_string() raises
+        invariant=lambda c: z3.And(packet_ok(c), pkf(c, '_len') == entry_pkf(c, '_len'),
+                                   pkf(c, '_idx') >= entry_pkf(c, '_idx') + 8 * c.extra['i'])))},
+    ensures=[('whole-packet-consumed', lambda c: packet_left(c) == 0)])
+
+
+# ---- more `while packet:` loops over peer bytes (same obligation: every iteration consumes >= 4 bytes or leaves)
+hostkeys_prove_loop = Spec(
+    PROP, 'connection', 'SSHServerConnection._process_hostkeys_prove_00_at_openssh_dot_com_global_request',
+    self_class='SSHServerConnection', params={'packet': 'obj:SSHPacket'},
+    classes=dict(PK, SSHServerConnection={'_all_server_host_keys': 'dict[bytes,obj:HostKey]', '_session_id': 'bytes'},
+                 HostKey={}),
+    truthy=PACKET_TRUTHY, inline=dict(PACKET_INLINE),
+    stubs={'key.sign': ret('bytes', 'signature'), 'self._report_global_response': noop('report')},
+    local_types={'packet': 'obj:SSHPacket', 'signatures': 'seq[bytes]'},
+    requires=packet_ok,
+    loops={1: havocs_packet(LoopSpec(header='packet', invariant=packet_ok, variant=packet_left))},
+    ensures=[('answers-exactly-once', lambda c: z3.BoolVal(len(c.events('report')) == 1))],
+    raises={'PacketDecodeError': True})
+
+
+def ascii_keys(m):
+    """the option decoder tables (public_key.py, class attributes) are keyed by ASCII literals"""
+    k = z3.Const('optname', BytesS)
+    okf = z3.Function('decodable_ascii', BytesS, BoolS)
+    return z3.ForAll([k], z3.Implies(z3.Select(m.dom, k), okf(k)))
+
+
+decode_options = Spec(
+    PROP, 'public_key', 'SSHOpenSSHCertificate._decode_options',
+    params={'options': 'bytes', 'decoders': 'dict[bytes,tag]', 'critical': 'bool'},
+    classes=dict(PK), truthy=PACKET_TRUTHY, inline=dict(PACKET_INLINE),
+    # an option decoder reads its own sub-packet: documented errors only
+    stubs={'decoder': may_raise(ret('any', 'option_value'), 'PacketDecodeError', 'KeyImportError')},
+    local_types={'packet': 'obj:SSHPacket', 'result': 'dict[str,any]', 'data_packet': 'obj:SSHPacket'},
+    requires=lambda c: ascii_keys(c.argv('decoders')),
+    loops={1: havocs_packet(LoopSpec(header='packet', invariant=packet_ok, variant=packet_left))},
+    raises={'PacketDecodeError': True, 'KeyImportError': True})
+decode_options.no_replay = True
+
+
+# ====================================================================== x11.py: X11 client prefix state machine
+# chain _recv_prefix(12 bytes) -> _recv_auth_proto(padded len, possibly 0) -> _recv_auth_data(padded len, possibly 0)
+# -> None: every handler call lowers the rank, so `while self._recv_handler:` runs at most three times per chunk.
+X_RANK = {'_recv_prefix': 3, '_recv_auth_proto': 2, '_recv_auth_data': 1}
+XK = {'SSHX11ClientForwarder': {'_inpbuf': 'bytes', '_bytes_needed': 'int', '_recv_handler': 'opt[tag]',
+                                '_endian': 'bytes', '_prefix': 'bytes', '_auth_proto_len': 'int',
+                                '_auth_data_len': 'int', '_auth_proto': 'bytes', '_auth_proto_pad': 'bytes',
+                                '_auth_data': 'bytes', '_auth_data_pad': 'bytes', '_listener': 'obj:Listener'},
+      'Listener': {}}
+
+
+def xrank(v):
+    if v is VNone:
+        return z3.IntVal(0)
+    if isinstance(v, VTag):
+        return z3.IntVal(X_RANK[v.tag.rsplit('.', 1)[-1]])
+    if isinstance(v, VOpt):
+        return z3.If(v.isnone, z3.IntVal(0), xrank(v.val))
+    r = z3.IntVal(4)
+    for name, k in X_RANK.items():
+        r = z3.If(v.z == tag_id('method:SSHX11ClientForwarder.' + name), z3.IntVal(k), r)
+    return r
+
+
+def x_inv(c, new=True):
+    f = c.new if new else c.old
+    return z3.And(f('_bytes_needed') >= 0, f('_auth_proto_len') >= 0, f('_auth_data_len') >= 0)
+
+
+def x_handler(name, nbytes):
+    tag = VTag('method:SSHX11ClientForwarder.' + name)
+    return Spec(PROP, 'x11', 'SSHX11ClientForwarder.' + name, self_class='SSHX11ClientForwarder',
+                params={'data': 'bytes'}, classes=XK,
+                inline={k: ('x11', 'SSHX11ClientForwarder.' + k.split('.')[1]) for k in
+                        ('self._decode_uint16', 'self._encode_uint16', 'self._padded_len', 'self._pad')},
+                stubs={'self._listener.validate_auth': may_raise(ret('bytes', 'auth'), 'KeyError'),
+                       'self.write': may_raise(noop('write'), 'OSError'),
+                       'self.write_eof': may_raise(noop('eof'), 'OSError')},
+                requires=lambda c: z3.And(x_inv(c, new=False), c.eq(c.oldv('_recv_handler'), tag),
+                                          z3.Length(c.arg('data')) == nbytes(c)),
+                ensures=[('state-machine-advances', lambda c: xrank(c.newv('_recv_handler')) < X_RANK[name]),
+                         ('lengths-stay-non-negative', x_inv)],
+                raises={})
+
+
+x_specs = [x_handler('_recv_prefix', lambda c: z3.IntVal(12)),
+           x_handler('_recv_auth_proto', lambda c: c.old('_bytes_needed')),
+           x_handler('_recv_auth_data', lambda c: c.old('_bytes_needed'))]
+
+
+def x_dispatch_stub(cx):
+    """self._recv_handler(data): the joint contract of the three handlers above"""
+    h0 = cx.selff('_recv_handler')
+    h1, b1, buf = cx.fresh('opt[tag]', 'handler_after'), cx.fresh('int', 'needed_after'), cx.fresh('bytes', 'buf_after')
+    return [Out(sets={'_recv_handler': h1, '_bytes_needed': b1, '_inpbuf': buf},
+                assume=[xrank(h1) < xrank(h0), b1.z >= 0], event=('handler', tuple(cx.args)))]
+
+
+x_dispatch_stub.modifies = ('_recv_handler', '_bytes_needed', '_inpbuf')
+
+x_data_received = Spec(
+    PROP, 'x11', 'SSHX11ClientForwarder.data_received', self_class='SSHX11ClientForwarder',
+    params={'data': 'bytes', 'datatype': 'none'}, classes=XK,
+    stubs={'self._recv_handler': x_dispatch_stub, 'super().data_received': noop('forward')},
+    requires=lambda c: z3.And(x_inv(c, new=False), xrank(c.oldv('_recv_handler')) <= 3),
+    loops={1: LoopSpec(header='self._recv_handler',
+                       invariant=lambda c: z3.And(c.new('_bytes_needed') >= 0, xrank(c.newv('_recv_handler')) <= 3),
+                       variant=lambda c: xrank(c.newv('_recv_handler')))},
+    ensures=[('at-most-three-handler-steps', lambda c: z3.BoolVal(True))],
+    raises={})
+
+
+# ====================================================================== agent.py: replies of the (untrusted) agent
+# documented failure of the agent client is ValueError (PacketDecodeError is a ValueError)
+def make_request_stub(cx):
+    """_make_request -> (resptype, SSHPacket): a freshly constructed reader after get_byte() (agent.py 252-255),
+    hence well-formed by the SSHPacket class invariant; OSError / EOFError / PacketDecodeError become ValueError"""
+    t = cx.fresh('int', 'resptype')
+    p = cx.fresh('obj:SSHPacket', 'resp')
+    r = cx.st.rec(p).fields
+    wf = z3.And(r['_idx'].z >= 0, r['_idx'].z <= r['_len'].z, r['_len'].z == z3.Length(r['_packet'].z))
+    return [Out(ret=VTuple([t, p]), assume=[wf, t.z >= 0, t.z <= 255]), Out(exc=VExc('ValueError'))]
+
+
+make_request_stub.modifies = ()
+AG = dict(PK, SSHAgentClient={}, KP={})
+
+agent_get_keys = Spec(
+    PROP, 'agent', 'SSHAgentClient.get_keys', self_class='SSHAgentClient', params={'identities': 'opt[seq[bytes]]'},
+    classes=AG, truthy=PACKET_TRUTHY, inline=dict(PACKET_INLINE),
+    stubs={'self._make_request': make_request_stub, 'SSHAgentKeyPair': ret('obj:KP', 'keypair'),
+           'result.append': noop()},
+    local_types={'resp': 'obj:SSHPacket', 'result': 'seq[int]', 'key_blob': 'bytes', 'comment': 'bytes',
+                 'packet': 'obj:SSHPacket', 'algorithm': 'bytes'},
+    loops={1: havocs_packet(LoopSpec(
+        header='for _ in range(num_keys)',
+        # (3) num_keys is any uint32 the agent chose: each listed key costs it at least 8 bytes of reply
+        invariant=lambda c: z3.And(packet_ok(c, 'resp'), pkf(c, '_len', 'resp') == entry_pkf(c, '_len', 'resp'),
+                                   pkf(c, '_idx', 'resp') >= entry_pkf(c, '_idx', 'resp') + 8 * c.extra['i'])),
+        'resp')},
+    raises={'ValueError': True})
+
+agent_sign = Spec(
+    PROP, 'agent', 'SSHAgentClient.sign', self_class='SSHAgentClient',
+    params={'key_blob': 'bytes', 'data': 'bytes', 'flags': 'int'}, classes=AG, truthy=PACKET_TRUTHY,
+    inline=dict(PACKET_INLINE), stubs={'self._make_request': make_request_stub},
+    requires=lambda c: z3.And(c.arg('flags') >= 0, c.arg('flags') < 2 ** 32), returns='bytes',
+    raises={'ValueError': True})
+
+
+# ====================================================================== sftp.py: extension parsers with peer counts
+def counted_loop(step, name='packet'):
+    """for _ in range(<peer uint32>): each iteration consumes >= `step` bytes, so at most len/step iterations run"""
+    return havocs_packet(LoopSpec(
+        invariant=lambda c: z3.And(packet_ok(c, name), pkf(c, '_len', name) == entry_pkf(c, '_len', name),
+                                   pkf(c, '_idx', name) >= entry_pkf(c, '_idx', name) + step * c.extra['i'])), name)
+
+
+SFTP_LT = {'packet': 'obj:SSHPacket', 'ext_names': 'seq[bytes]', 'attrib_ext_names': 'seq[bytes]', 'name': 'bytes'}
+parse_supported = Spec(
+    PROP, 'sftp', '_parse_supported', params={'data': 'bytes'}, classes=dict(PK), truthy=PACKET_TRUTHY,
+    inline=dict(PACKET_INLINE), local_types=SFTP_LT,
+    loops={1: havocs_packet(LoopSpec(header='packet', invariant=packet_ok, variant=packet_left))},
+    raises={'PacketDecodeError': True})
+parse_supported2 = Spec(
+    PROP, 'sftp', '_parse_supported2', params={'data': 'bytes'}, classes=dict(PK), truthy=PACKET_TRUTHY,
+    inline=dict(PACKET_INLINE), local_types=SFTP_LT,
+    loops={1: counted_loop(4), 2: counted_loop(4)},
+    raises={'PacketDecodeError': True})
+for _sp in (parse_supported, parse_supported2):
+    _sp.no_replay = True
+parse_supported2.feasible_timeout_ms = 300
+
+
+# ====================================================================== bounded stand-in: interpreter recursion limit
+# The recursion der_decode_partial -> _Sequence/_Set.decode -> der_decode_partial is proved well founded above, but
+# its DEPTH is only bounded by len(data)/2 and the engine does not model RecursionError.  This native probe (not
+# counted as a proof) feeds nested SEQUENCEs of growing depth to the real der_decode under /venv/bin/python.
+_NEST_PROBE = r'''
+import json, sys
+from asyncssh.asn1 import der_decode, ASN1DecodeError
+def nest(d):
+    inner = b''
+    for _ in range(d):
+        n = len(inner)
+        if n < 0x80: hdr = bytes([0x30, n])
+        else:
+            lb = n.to_bytes((n.bit_length() + 7) // 8, 'big'); hdr = bytes([0x30, 0x80 | len(lb)]) + lb
+        inner = hdr + inner
+    return inner
+bad = []
+for d in (10, 100, 300, 600, 1200, 5000):
+    data = nest(d)
+    try:
+        der_decode(data)
+    except ASN1DecodeError:
+        pass
+    except BaseException as e:
+        bad.append('der_decode(%d nested SEQUENCEs, %d bytes) raised %s' % (d, len(data), type(e).__name__))
+print(json.dumps(bad))
+'''
+
+
+def extra_checks(tier, seed):
+    import json, os, subprocess
+    from pyvc import extract
+    env = dict(os.environ, PYTHONPATH=extract.REPO)
+    name = 'C10.asn1.der_decode#bounded(nesting-depth-raises-only-ASN1DecodeError)'
+    try:
+        p = subprocess.run(['/venv/bin/python', '-c', _NEST_PROBE], capture_output=True, text=True, env=env, timeout=120)
+        bad = json.loads(p.stdout.strip().splitlines()[-1])
+    except Exception as e:        # harness trouble is never a verdict
+        return {'bounded': [{'name': name, 'inputs': 0, 'violations': [], 'error': repr(e)}]}
+    return {'bounded': [{'name': name, 'inputs': 6, 'violations': bad}]}
